@@ -82,7 +82,7 @@ class Kernels:
         targets.register_primitive_enum(repo)
         self.ex = sym.Executor(mf, overflow_checks, models.base_models(), targets.generic_resolver(mf, CRATE_PREFIXES), seed=seed)
         self.instr_fn = {}
-        for ins in ("bin_op", "equ", "neq"):
+        for ins in ("bin_op", "equ", "neq", "bin_op_assign"):
             self.instr_fn[ins] = targets.find_one(mf, r"^%s$" % ins)
         for ins in ("neg", "not"):
             self.instr_fn[ins] = targets.find_one(mf, r"^implementations::%s$" % ins)
@@ -96,6 +96,36 @@ class Kernels:
         for ins, n in self.instr_fn.items():
             d["instruction:" + ins] = {"mir_item": n, "mir_lines": self.mf.func(n).nlines}
         return d
+
+    def summarize_assign(self, op, kinds):
+        """`bin_op_assign "<sym>=" "x"`: x (left operand, a named variable cell) op= top of stack; the result must be both stored
+        into x and left on the stack"""
+        t = time.time()
+        inputs = [sym_payload(k, "ab"[i]) for i, k in enumerate(kinds)]
+        ctx = Adt("Ctx", None, [Adt("Vec", None, [prim(kinds[1], inputs[1])])] + [Opaque("ctx-field", i) for i in range(1, 6)])
+        cells = {("ctx",): ctx, ("var", "x"): prim(kinds[0], inputs[0]),
+                 ("iargs",): Adt("[]", None, [Opaque("strlit", '"%s="' % RT_SYMBOL[op]), Opaque("strlit", '"x"')])}
+        outs = self.ex.run(self.instr_fn["bin_op_assign"], [Ref(("ctx",)), Ref(("iargs",))], cells=cells)
+        paths = []
+        for o in outs:
+            if o.kind == "panic":
+                paths.append(Path(o.pc, "panic", site=o.value.site, msg=o.value.msg))
+                continue
+            v = o.value
+            if v.variant == "Err":
+                paths.append(Path(o.pc, "err", msg=repr(v.fields[0])[:120]))
+                continue
+            stack = o.cells[("ctx",)].fields[0]
+            var = o.cells[("var", "x")]
+            if len(stack.fields) != 1 or not (isinstance(var, Adt) and var.ty == "Primitive"):
+                raise Inconclusive("bin_op_assign left stack %r, variable %r" % (stack, var))
+            top = stack.fields[0]
+            if top.variant != var.variant or (hasattr(top.fields[0], "e") and not z3.eq(z3.simplify(top.fields[0].e), z3.simplify(var.fields[0].e))):
+                raise Inconclusive("bin_op_assign: value on the stack and value stored differ (%r vs %r)" % (top, var))
+            paths.append(Path(o.pc, "ok", var.variant, var.fields[0]))
+        summ = Summary(op, tuple(kinds), inputs, paths, self.instr_fn["bin_op_assign"], time.time() - t)
+        summ.via = "instruction `bin_op_assign %s= x`" % RT_SYMBOL[op]
+        return summ
 
     def summarize_instr(self, op, kinds):
         """the same kernel reached the way compiled code reaches it: through the interpreter instruction
